@@ -12,6 +12,7 @@ package conf
 // (named rules + a role per path + a repair pass), never by rejection.
 
 import (
+	"encoding/json"
 	"fmt"
 	"math"
 	"net"
@@ -129,7 +130,7 @@ func c08GenDurationRaw(t *rapid.T, l string) int64 {
 		return rapid.Int64Range(-106751, 106751).Draw(t, l+".days") * c08Day
 	case 3: // days and a remainder
 		d := rapid.Int64Range(-106750, 106750).Draw(t, l+".days") * c08Day
-		r := rapid.Int64Range(-(c08Day - 1), c08Day-1).Draw(t, l+".rem")
+		r := rapid.Int64Range(-(c08Day-1), c08Day-1).Draw(t, l+".rem")
 		return d + r
 	case 4: // sub-second parts
 		return rapid.Int64Range(-5_000_000_000, 5_000_000_000).Draw(t, l)
@@ -524,6 +525,13 @@ func (g *c08Gen) value(rt reflect.Type, field, l string) reflect.Value {
 		p := c08Protocols[i]
 		return reflect.ValueOf(RTSPTransport{Protocol: &p})
 	}
+	// a named scalar type with a decoder of its own that none of the tables above knows (a parameter type added
+	// after this harness was written): its valid values are unknown here, and feeding it arbitrary scalars would
+	// report the decoder's correct refusals as round-trip failures
+	if rt.PkgPath() != "" && rt.Kind() != reflect.Struct && rt.Kind() != reflect.Slice &&
+		reflect.PointerTo(rt).Implements(reflect.TypeOf((*json.Unmarshaler)(nil)).Elem()) {
+		g.t.Fatalf("VERIF-INCONCLUSIVE: harness: no generator for the constrained configuration type %v (parameter %q) - extend c08Enums", rt, field)
+	}
 	switch rt.Kind() {
 	case reflect.Bool:
 		return reflect.ValueOf(rapid.Bool().Draw(t, l)).Convert(rt)
@@ -677,13 +685,13 @@ func (g *c08Gen) setOpt(values reflect.Value, name string, v any, l string) {
 // whole configurations
 
 var c08RPIEnums = map[string][]string{
-	"RPICameraExposure": {"normal", "short", "long", "custom"},
-	"RPICameraAWB":      {"auto", "incandescent", "tungsten", "fluorescent", "indoor", "daylight", "cloudy", "custom"},
-	"RPICameraDenoise":  {"off", "cdn_off", "cdn_fast", "cdn_hq"},
-	"RPICameraMetering": {"centre", "spot", "matrix", "custom"},
-	"RPICameraAfMode":   {"auto", "manual", "continuous"},
-	"RPICameraAfRange":  {"normal", "macro", "full"},
-	"RPICameraAfSpeed":  {"normal", "fast"},
+	"RPICameraExposure":    {"normal", "short", "long", "custom"},
+	"RPICameraAWB":         {"auto", "incandescent", "tungsten", "fluorescent", "indoor", "daylight", "cloudy", "custom"},
+	"RPICameraDenoise":     {"off", "cdn_off", "cdn_fast", "cdn_hq"},
+	"RPICameraMetering":    {"centre", "spot", "matrix", "custom"},
+	"RPICameraAfMode":      {"auto", "manual", "continuous"},
+	"RPICameraAfRange":     {"normal", "macro", "full"},
+	"RPICameraAfSpeed":     {"normal", "fast"},
 	"RPICameraH264Profile": {"auto", "baseline", "main", "high"},
 	"RPICameraH264Level":   {"4.0", "4.1", "4.2"},
 	"RPICameraCodec":       {"auto", "hardwareH264", "softwareH264", "mjpeg"},
